@@ -357,7 +357,6 @@ theorem positions_addr {shape : List Nat} {ls : List (List Int)} {o src : List N
           (o1 :: os1) o p _ hget (by rw [hsublen]; exact hk)]
         rw [List.getElem?_map, ih sub hsub]
         rfl
-
 theorem nodup_nodupB : ∀ l : List String, l.Nodup → nodupB l = true := by
   intro l
   induction l with
@@ -366,5 +365,270 @@ theorem nodup_nodupB : ∀ l : List String, l.Nodup → nodupB l = true := by
     intro h
     have := List.nodup_cons.mp h
     simp [nodupB, this.1, ih this.2]
+
+
+/-! ### add_fields then remove_fields of the same names restores the vector (up to fresh arrays) -/
+
+/-- what `expand_array` / `prune_array` do to one cell: unset stays unset; a populated cell gets
+a reference to a new array `g a` where `a` is the array it held -/
+def RebRel (g : Arr → Arr) (heap heap' : List Arr) (c o : Option Ref) : Prop :=
+  match c with
+  | none => o = none
+  | some r => ∃ (r' : Nat) (a : Arr), o = some r' ∧ heap[r]? = some a ∧ heap'[r']? = some (g a)
+
+theorem rebuildCells_rel (g : Arr → Arr) (bad : Arr → Bool) :
+    ∀ (cells : List (Option Ref)) (heap heap' : List Arr) (out : List (Option Ref)),
+      (∀ c ∈ cells, ∀ r, c = some r → r < heap.length) →
+      rebuildCells g bad heap cells = .ok (heap', out) →
+      ∃ ext, heap' = heap ++ ext ∧ All2 (RebRel g heap heap') cells out := by
+  intro cells
+  induction cells with
+  | nil =>
+    intro heap heap' out _ h
+    simp only [rebuildCells] at h; cases h
+    exact ⟨[], by simp, .nil⟩
+  | cons c cs ih =>
+    intro heap heap' out hlive h
+    have hlive' : ∀ c ∈ cs, ∀ r, c = some r → r < heap.length :=
+      fun c hc => hlive c (List.mem_cons_of_mem _ hc)
+    cases c with
+    | none =>
+      simp only [rebuildCells] at h
+      split at h
+      · cases h
+      · rename_i h2 out2 hrest
+        cases h
+        obtain ⟨ext, e1, e2⟩ := ih heap _ _ hlive' hrest
+        exact ⟨ext, e1, .cons rfl e2⟩
+    | some r =>
+      simp only [rebuildCells] at h
+      split at h
+      · cases h
+      · rename_i a ha
+        split at h
+        · cases h
+        · split at h
+          · cases h
+          · rename_i h2 out2 hrest
+            cases h
+            obtain ⟨ext, e1, e2⟩ := ih (heap ++ [g a]) _ _
+              (fun c hc r hr => Nat.lt_of_lt_of_le (hlive' c hc r hr) (by simp)) hrest
+            subst e1
+            refine ⟨g a :: ext, by simp, .cons ⟨heap.length, a, rfl, ha, by simp⟩ ?_⟩
+            refine All2.imp_mem ?_ e2
+            intro c hc o hco
+            cases c with
+            | none => exact hco
+            | some r1 =>
+              obtain ⟨r', a1, h1, h2', h3⟩ := hco
+              refine ⟨r', a1, h1, ?_, h3⟩
+              rw [List.getElem?_append_left (hlive' _ hc r1 rfl)] at h2'
+              exact h2'
+
+theorem All2.comp {α β γ : Type} {R : α → β → Prop} {S : β → γ → Prop} {T : α → γ → Prop}
+    (h : ∀ a b c, R a b → S b c → T a c) :
+    ∀ {l₁ : List α} {l₂ : List β} {l₃ : List γ}, All2 R l₁ l₂ → All2 S l₂ l₃ → All2 T l₁ l₃ := by
+  intro l₁ l₂ l₃ h1
+  induction h1 generalizing l₃ with
+  | nil => intro h2; cases h2; exact .nil
+  | cons r _ ih =>
+    intro h2
+    cases h2 with
+    | cons s' rest => exact .cons (h _ _ _ r s') (ih rest)
+
+theorem getVec_ok' {s : State} {vid : Nat} {v : Vec} (h : s.getVec vid = .ok v) : s.vecs[vid]? = some v := by
+  unfold State.getVec at h
+  split at h
+  · rename_i v' hv'; cases h; exact hv'
+  · cases h
+
+theorem getVec_putVec {s : State} {vid : Nat} {v v' : Vec} (h : s.getVec vid = .ok v) :
+    (s.putVec vid v').getVec vid = .ok v' := by
+  have := getElem?_lt (getVec_ok' h)
+  simp [State.getVec, State.putVec, List.getElem?_set_self this]
+
+theorem addFields_spec {s : State} (hI : Inv s) {vid : Nat} {v : Vec} {names : List String}
+    (hv : s.getVec vid = .ok v) (hnew : ∀ n ∈ names, n ∉ v.fields) (hnd : names.Nodup) :
+    ∃ (s1 : State) (v1 : Vec) (ext : List Arr),
+      opAddFields s vid names = (s1, .none) ∧ s1.getVec vid = .ok v1 ∧ s1.heap = s.heap ++ ext ∧
+      v1.shape = v.shape ∧ v1.fields = v.fields ++ names ∧
+      v1.units = v.units ++ List.replicate names.length "none" ∧
+      All2 (RebRel (·.addCols names.length) s.heap (s.heap ++ ext)) v.cells v1.cells := by
+  have hvok := hI.vecs v (getVec_mem hv)
+  have h1 : names.any (v.fields.contains ·) = false := by
+    rw [List.any_eq_false]
+    intro n hn
+    simpa using hnew n hn
+  obtain ⟨r, hr⟩ := rebuildCells_ok (fun a => a.addCols names.length) (fun a => a.ncols != v.fields.length)
+    v.fields.length (by intro a ha; simp [ha]) v.cells s.heap hvok.cells
+  obtain ⟨heap', cs⟩ := r
+  obtain ⟨ext, e1, e2⟩ := rebuildCells_rel _ _ v.cells s.heap heap' cs (cells_live hvok.cells) hr
+  subst e1
+  refine ⟨({ s with heap := s.heap ++ ext } : State).putVec vid
+      (Vec.mk v.shape cs (v.fields ++ names) (v.units ++ List.replicate names.length "none") v.mref),
+    Vec.mk v.shape cs (v.fields ++ names) (v.units ++ List.replicate names.length "none") v.mref, ext,
+    ?_, getVec_putVec (v := v) (by simpa [State.getVec] using hv), rfl, rfl, rfl, rfl, e2⟩
+  unfold opAddFields
+  simp only [hv, h1, nodup_nodupB names hnd]
+  simp [hr]
+
+theorem range_map_getD_append (l m : List String) : (List.range l.length).map ((l ++ m).getD · "") = l := by
+  apply List.ext_getElem
+  · simp
+  · intro i h1 h2
+    have : i < l.length := by simpa using h1
+    simp [List.getD_eq_getElem?_getD, List.getElem?_append_left this, List.getElem?_eq_getElem this]
+
+theorem Arr.keepCols_addCols {a : Arr} (hwf : a.WF) (k : Nat) :
+    (a.addCols k).keepCols (List.range a.ncols) = a := by
+  cases a with
+  | mk n rows =>
+    simp only [Arr.addCols, Arr.keepCols, List.length_range, List.map_map]
+    congr 1
+    have : ∀ r ∈ rows, ((fun r : List Rat => (List.range n).map (r.getD · 0)) ∘ fun r => r ++ List.replicate k 0) r = r := by
+      intro r hr
+      have hl : r.length = n := hwf r hr
+      simp only [Function.comp]
+      apply List.ext_getElem
+      · simp [hl]
+      · intro i h1 h2
+        have : i < r.length := by simpa [hl] using h1
+        simp [List.getD_eq_getElem?_getD, List.getElem?_append_left this, List.getElem?_eq_getElem this]
+    rw [List.map_congr_left this]
+    simp
+
+/-- the columns kept by `remove_fields names` right after `add_fields names` are exactly the old ones -/
+theorem keep_after_add (fields names : List String) (hnew : ∀ n ∈ names, n ∉ fields) (hnd : names.Nodup) :
+    (List.range (fields ++ names).length).filter
+      (fun i => !((names.filter ((fields ++ names).contains ·)).map ((fields ++ names).idxOf ·)).contains i) =
+    List.range fields.length := by
+  have hfilter : names.filter ((fields ++ names).contains ·) = names := by
+    rw [List.filter_eq_self]
+    intro n hn
+    simp [hn]
+  rw [hfilter]
+  have hidx : ∀ n ∈ names, (fields ++ names).idxOf n = fields.length + names.idxOf n := by
+    intro n hn
+    rw [List.idxOf_append]
+    simp [hnew n hn, Nat.add_comm]
+  rw [List.length_append, List.range_add, List.filter_append]
+  have h1 : (List.range fields.length).filter
+      (fun i => !(names.map ((fields ++ names).idxOf ·)).contains i) = List.range fields.length := by
+    rw [List.filter_eq_self]
+    intro i hi
+    have hi' : i < fields.length := List.mem_range.mp hi
+    simp only [Bool.not_eq_true', List.contains_eq_mem, decide_eq_false_iff_not, List.mem_map]
+    rintro ⟨n, hn, e⟩
+    rw [hidx n hn] at e
+    omega
+  have h2 : ((List.range names.length).map (fun x => fields.length + x)).filter
+      (fun i => !(names.map ((fields ++ names).idxOf ·)).contains i) = [] := by
+    rw [List.filter_eq_nil_iff]
+    intro i hi
+    simp only [List.mem_map, List.mem_range] at hi
+    obtain ⟨x, hx, rfl⟩ := hi
+    simp only [Bool.not_eq_true', List.contains_eq_mem, decide_eq_false_iff_not, List.mem_map, Classical.not_not]
+    exact ⟨names[x], List.getElem_mem hx, by rw [hidx _ (List.getElem_mem hx), hnd.idxOf_getElem x hx]⟩
+  rw [h1, h2, List.append_nil]
+
+theorem removeFields_spec {s : State} (hI : Inv s) {vid : Nat} {v : Vec} {names : List String}
+    (hv : s.getVec vid = .ok v) (rm keep : List Nat)
+    (hrm : (names.filter (v.fields.contains ·)).map (v.fields.idxOf ·) = rm)
+    (hkeep : (List.range v.fields.length).filter (fun i => !rm.contains i) = keep)
+    (hne : rm.isEmpty = false) :
+    ∃ (s2 : State) (v2 : Vec) (ext : List Arr),
+      opRemoveFields s vid names = (s2, .none) ∧ s2.getVec vid = .ok v2 ∧ s2.heap = s.heap ++ ext ∧
+      v2.shape = v.shape ∧ v2.fields = keep.map (v.fields.getD · "") ∧ v2.units = keep.map (v.units.getD · "") ∧
+      All2 (RebRel (·.keepCols keep) s.heap (s.heap ++ ext)) v.cells v2.cells := by
+  have hvok := hI.vecs v (getVec_mem hv)
+  have hrmlt : ∀ i ∈ rm, i < v.fields.length := by
+    intro i hi
+    rw [← hrm] at hi
+    simp only [List.mem_map, List.mem_filter] at hi
+    obtain ⟨nm, ⟨_, hc⟩, rfl⟩ := hi
+    exact List.idxOf_lt_length_of_mem (by simpa using hc)
+  obtain ⟨r, hr⟩ := rebuildCells_ok (fun a => a.keepCols keep) (fun a => rm.any (fun i => a.ncols < i + 1))
+    v.fields.length (by
+      intro a ha
+      rw [List.any_eq_false]
+      intro i hi
+      have := hrmlt i hi
+      simp; omega) v.cells s.heap hvok.cells
+  obtain ⟨heap', cs⟩ := r
+  obtain ⟨ext, e1, e2⟩ := rebuildCells_rel _ _ v.cells s.heap heap' cs (cells_live hvok.cells) hr
+  subst e1
+  refine ⟨({ s with heap := s.heap ++ ext } : State).putVec vid
+      (Vec.mk v.shape cs (keep.map (v.fields.getD · "")) (keep.map (v.units.getD · "")) v.mref),
+    Vec.mk v.shape cs (keep.map (v.fields.getD · "")) (keep.map (v.units.getD · "")) v.mref, ext,
+    ?_, getVec_putVec (v := v) (by simpa [State.getVec] using hv), rfl, rfl, rfl, rfl, e2⟩
+  unfold opRemoveFields
+  simp only [hv, hrm, hkeep, hne]
+  simp [hr]
+
+/-- relation between a cell before `add_fields` and after the following `remove_fields` -/
+def SameValue (heap heap2 : List Arr) (c c2 : Option Ref) : Prop :=
+  match c with
+  | none => c2 = none
+  | some r => ∃ (r2 : Nat) (a : Arr), c2 = some r2 ∧ heap[r]? = some a ∧ heap2[r2]? = some a
+
+theorem All2.comp_mem {α β γ : Type} {R : α → β → Prop} {S : β → γ → Prop} {T : α → γ → Prop} :
+    ∀ {l₁ : List α} {l₂ : List β} {l₃ : List γ}, (∀ a ∈ l₁, ∀ b c, R a b → S b c → T a c) →
+      All2 R l₁ l₂ → All2 S l₂ l₃ → All2 T l₁ l₃ := by
+  intro l₁ l₂ l₃ h h1
+  induction h1 generalizing l₃ with
+  | nil => intro h2; cases h2; exact .nil
+  | cons r _ ih =>
+    intro h2
+    cases h2 with
+    | cons s' rest =>
+      exact .cons (h _ List.mem_cons_self _ _ r s') (ih (fun a ha => h a (List.mem_cons_of_mem _ ha)) rest)
+
+/-- **add_fields then remove_fields of the same names restores the vector**: same shape, fields
+and units, the same cells populated, and every populated cell holds an array with exactly the
+values it held before (the arrays themselves are new objects, as in the code). -/
+theorem add_remove_spec {s : State} (hI : Inv s) {vid : Nat} {v : Vec} {names : List String}
+    (hv : s.getVec vid = .ok v) (hnew : ∀ n ∈ names, n ∉ v.fields) (hnd : names.Nodup) (hne : names ≠ []) :
+    ∃ (s1 s2 : State) (v2 : Vec), opAddFields s vid names = (s1, .none) ∧ opRemoveFields s1 vid names = (s2, .none) ∧
+      s2.getVec vid = .ok v2 ∧ v2.shape = v.shape ∧ v2.fields = v.fields ∧ v2.units = v.units ∧
+      All2 (SameValue s.heap s2.heap) v.cells v2.cells := by
+  have hvok := hI.vecs v (getVec_mem hv)
+  obtain ⟨s1, v1, ext1, hadd, hg1, hheap1, hsh1, hf1, hu1, rel1⟩ := addFields_spec hI hv hnew hnd
+  have hI1 : Inv s1 := by
+    have := inv_addFields hI vid names
+    rw [hadd] at this; exact this
+  have hkeep := keep_after_add v.fields names hnew hnd
+  rw [← hf1] at hkeep
+  have hne' : ((names.filter (v1.fields.contains ·)).map (v1.fields.idxOf ·)).isEmpty = false := by
+    cases names with
+    | nil => exact absurd rfl hne
+    | cons n ns => simp [hf1]
+  obtain ⟨s2, v2, ext2, hrem, hg2, hheap2, hsh2, hf2, hu2, rel2⟩ := removeFields_spec hI1 hg1 _ _ rfl hkeep hne'
+  refine ⟨s1, s2, v2, hadd, hrem, hg2, hsh2.trans hsh1, ?_, ?_, ?_⟩
+  · rw [hf2, hf1]; exact range_map_getD_append _ _
+  · rw [hu2, hu1, ← hvok.units]; exact range_map_getD_append _ _
+  · rw [hheap2, hheap1]
+    refine All2.comp_mem ?_ rel1 rel2
+    intro c hc c1 c2 h1 h2
+    cases c with
+    | none =>
+      simp only [RebRel] at h1; subst h1
+      simpa [RebRel, SameValue] using h2
+    | some r =>
+      obtain ⟨r1, a, e1, ha, ha1⟩ := h1
+      subst e1
+      obtain ⟨r2, a1, e2, hb, hb2⟩ := h2
+      subst e2
+      rw [hheap1, ha1] at hb
+      have : a1 = a.addCols names.length := by cases hb; rfl
+      subst this
+      obtain ⟨a0, ha0, hn0⟩ := hvok.cells _ hc r rfl
+      rw [ha] at ha0
+      have : a0 = a := by cases ha0; rfl
+      subst this
+      refine ⟨r2, a0, rfl, ha, ?_⟩
+      rw [hheap1] at hb2
+      rw [hb2, ← hn0]
+      show some ((a0.addCols names.length).keepCols (List.range a0.ncols)) = some a0
+      rw [Arr.keepCols_addCols (hI.wf a0 (List.mem_of_getElem? ha))]
 
 end QuantemModel.Vector
